@@ -1,6 +1,7 @@
 //! The checks, one module per property.
 use crate::framework::CheckDef;
 
+pub mod c07;
 pub mod c25;
 pub mod dsio;
 pub mod c26;
@@ -10,6 +11,7 @@ pub fn register(v: &mut Vec<CheckDef>) {
     v.push(dsio::def_c01());
     v.push(dsio::def_c02());
     v.push(dsio::def_c04());
+    v.push(c07::def());
     v.push(c25::def());
     v.push(c26::def());
     v.push(c27::def());
